@@ -209,6 +209,11 @@ theorem plural_category_total (locale : String) (n : FluentNumber) (hwf : WF n.v
 
 /-! ## non-vacuity and CLDR sanity facts (these are TESTS on literals, checked by `decide`) -/
 
+/-- a well-formed value (hypothesis of `operands_match_display`, `plural_match_iff`); every parsed source is one -/
+example : WF ⟨true, [0, 1, 2], [5, 0]⟩ :=
+  ⟨by decide, by intro d hd; simp at hd; omega, by intro d hd; simp at hd; omega⟩
+example (src : Bytes) (d : Dec) (h : parseDec src = some d) : WF d := parseDec_wf h
+
 /-- the rule tables are instances of the hypothesis of `plural_match_iff` -/
 example : RespectsValue (cldrRule "ar") := cldrRule_respects "ar"
 example : RespectsValue (crateRule "lt") := crateRule_respects "lt"
